@@ -11,9 +11,9 @@ import (
 
 func init() {
 	register(&propDef{
-		ID:    "C02",
-		Title: "Storage backend and key layout never change an answer",
-		Run:   runC02,
+		ID:          "C02",
+		Title:       "Storage backend and key layout never change an answer",
+		Run:         runC02,
 		Explanation: "Structural necessary conditions of backend independence, decided on SSA: (siblings) the two Reader implementations have the same loop-variant walk guards and row filters; (cache-exact) the per-request cache of the RocksDB reader never turns 'closest key' into 'exact key': data of a cached entry is only served as an exact get under bytes.Equal(entry.key, key); (cursor) the common-prefix jump of the closest-key walks is only taken when the closest key is a different name (same name with another suffix/location strips exactly one label); (found-prefix) a closest key is only interpreted after its prefix was compared with the search key; (feature) the key-layout flag is written and read through one codec, one bit and one predicate. Observational equality of responses is not decided.",
 	})
 }
